@@ -104,11 +104,11 @@ class RefSM:
         return self.d['init'] if self.d.get('init') is not None else self.d['states'][0]
 
     def enter(self, sid, ev):
-        if sid != 0 and sid in self.d.get('enter', self.d['states']):
+        if sid in self.d['states'] and sid in self.d.get('enter', self.d['states']):
             self.trace.append(('enter', self.d['name'], sid, ev, (sid, -1, self.last if self.last is not None else -1)))
 
     def exit(self, sid, ev, nxt=-1):
-        if sid != 0 and sid in self.d.get('exit', self.d['states']):
+        if sid in self.d['states'] and sid in self.d.get('exit', self.d['states']):
             self.trace.append(('exit', self.d['name'], sid, ev, (sid, nxt, self.last if self.last is not None else -1)))
 
     def start(self):
@@ -201,6 +201,15 @@ def definitions():
         deep = dict(sub)
         deep['subs'] = {2: subsub}
         out.append({'name': 'M', 'states': [1, 2, 3], 'init': None, 'routes': routes, 'handlers': [], 'subs': {2: deep}})
+    # state ids may be negative: only -1 means "no target chosen"
+    out.append({'name': 'M', 'states': [1, -2, 3], 'init': None, 'routes': [(1, 1, 3, True, True), (-2, 2, 1, None, True), (3, 0, 1, None, False)], 'handlers': [(1, 1, -2), (3, 2, -5)]})
+    # a nested machine whose state 0 is a state of its own (with a route out of it and a handler), not the built-in terminal one: it counts as terminated while it sits there,
+    # and is still offered the next event first
+    own0 = {'name': 'Z', 'states': [1, 0], 'init': None, 'routes': [(1, 1, 0, None, True), (0, 2, 1, None, True), (0, 1, 0, True, False)], 'handlers': [(0, 3, -1)]}
+    own0i = {'name': 'Z', 'states': [0, 1], 'init': 0, 'routes': [(0, 2, 1, None, True), (1, 1, 0, None, False)], 'handlers': []}
+    for routes in ([(1, 1, 2, None, True), (2, 3, 1, None, True), (2, 2, 3, None, False), (3, 0, 1, None, False)],):
+        out.append({'name': 'M', 'states': [1, 2, 3], 'init': None, 'routes': routes, 'handlers': [], 'subs': {2: own0}})
+        out.append({'name': 'M', 'states': [1, 2, 3], 'init': 2, 'routes': routes, 'handlers': [], 'subs': {2: own0i}})
     return out
 
 
